@@ -225,10 +225,64 @@ theorem invertCircle_fixes_circle_real (p c : Geonum ℝ) (r : ℝ) (hr : (p.sub
     rw [hm]
   rw [this]
 
+/-- the reference inversion of the plane in the circle of centre `C` and radius `r` -/
+noncomputable def invRef (C : ℂ) (r : ℝ) (P : ℂ) : ℂ := C + ((r ^ 2 / Complex.normSq (P - C) : ℝ) : ℂ) * (P - C)
+
+/-- the reference inversion keeps the point on its ray from the centre with `|P' − C|·|P − C| = r²`, fixes the points of the
+    circle, and **is its own inverse** (for `P ≠ C`, `r ≠ 0`) -/
+theorem invRef_laws (C P : ℂ) (r : ℝ) (hP : P ≠ C) (hr : r ≠ 0) :
+    ‖invRef C r P - C‖ * ‖P - C‖ = r ^ 2 ∧ (‖P - C‖ = |r| → invRef C r P = P) ∧ invRef C r (invRef C r P) = P := by
+  have hd : P - C ≠ 0 := sub_ne_zero.mpr hP
+  have hn : Complex.normSq (P - C) ≠ 0 := fun h => hd (Complex.normSq_eq_zero.mp h)
+  have hnpos : 0 < Complex.normSq (P - C) := Complex.normSq_pos.mpr hd
+  have hoff : invRef C r P - C = ((r ^ 2 / Complex.normSq (P - C) : ℝ) : ℂ) * (P - C) := by unfold invRef; ring
+  have hr2 : 0 < r ^ 2 := by positivity
+  refine ⟨?_, ?_, ?_⟩
+  · rw [hoff, norm_mul, Complex.norm_real, Real.norm_of_nonneg (le_of_lt (div_pos hr2 hnpos)), mul_assoc,
+      ← sq, Complex.sq_norm]
+    field_simp
+  · intro hcirc
+    have : Complex.normSq (P - C) = r ^ 2 := by rw [← Complex.sq_norm, hcirc, sq_abs]
+    unfold invRef
+    rw [this, div_self (ne_of_gt hr2)]
+    simp
+  · have hq : Complex.normSq (invRef C r P - C) = (r ^ 2) ^ 2 / Complex.normSq (P - C) := by
+      rw [hoff, Complex.normSq_mul, Complex.normSq_ofReal]
+      field_simp
+    show C + ((r ^ 2 / Complex.normSq (invRef C r P - C) : ℝ) : ℂ) * (invRef C r P - C) = P
+    rw [hq, hoff, ← mul_assoc, ← Complex.ofReal_mul]
+    have : r ^ 2 / ((r ^ 2) ^ 2 / Complex.normSq (P - C)) * (r ^ 2 / Complex.normSq (P - C)) = 1 := by
+      field_simp
+    rw [this]; simp
+
+/-- (E) the inverted offset the code adds to the centre is exactly the reference inversion's offset of the code's own offset vector:
+    `cart c + cart io = invRef (cart c) r (cart c + cart (p − c))` -/
+theorem invertCircle_offset_is_ref (p c io : Geonum ℝ) (r : ℝ) (hoffpos : 0 < (p.sub c).mag)
+    (hang : io.angle = (p.sub c).angle) (hmag : io.mag * (p.sub c).mag = r ^ 2) :
+    cart c + cart io = invRef (cart c) r (cart c + cart (p.sub c)) := by
+  unfold invRef
+  rw [add_sub_cancel_left]
+  have hns : Complex.normSq (cart (p.sub c)) = (p.sub c).mag ^ 2 := by
+    rw [← Complex.sq_norm]; show ‖polar (p.sub c).mag _‖ ^ 2 = _
+    rw [norm_polar, sq_abs]
+  have hio : io.mag = r ^ 2 / (p.sub c).mag := by field_simp; linarith
+  congr 1
+  show polar io.mag (T io.angle) = _ * polar (p.sub c).mag (T (p.sub c).angle)
+  rw [hang, hns, hio]
+  have hmulp : ∀ k m θ : ℝ, ((k : ℝ) : ℂ) * polar m θ = polar (k * m) θ := by
+    intro k m θ; apply Complex.ext <;> simp [polar, Complex.mul_re, Complex.mul_im] <;> ring
+  rw [hmulp]
+  congr 1
+  have := ne_of_gt hoffpos
+  field_simp
+
 end E
 
-/-! PARTIAL (not yet proved): the involution `invert ∘ invert = id` as a composed Cartesian statement (it follows from
-    `invertCircle_cartesian_real` applied twice; tolerances scale with the conditioning r²/|p−c|²).  Explored by `oracle.C13.invert`. -/
+/-! The involution is proved for the reference map (`invRef_laws`), and the code is tied to the reference map by
+    `invertCircle_cartesian_real` + `invertCircle_offset_is_ref` (the result is within the addition tolerance of `invRef` applied to a
+    point within the addition tolerance of `p`).  Composing two such steps into a single bound `‖p'' − p‖ ≤ …` needs the Lipschitz
+    constant `r²/|p−c|²` of `invRef` and is not proved as one statement; it is explored by `oracle.C13.invert` with exactly that
+    conditioning factor. -/
 
 example {F : Type} [FloatSpec F] : (⟨zero, 0⟩ : Angle F).Inv := inv_zero 0
 
